@@ -174,6 +174,66 @@ static void timed_mutex_pair()
     pmc_outcome("b=%d a_first=%d unlocked_before_deadline=%d", b_result, a_first, (int) (t_unlocked < b_deadline));
 }
 
+// three tasks: the owner, a timed waiter queued first, a plain lock() waiter queued behind it.  The owner
+// unlocks before the timed waiter's deadline but keeps its worker busy until after it (1 worker), so the
+// notified timed waiter runs again only after its deadline.  Whatever it returns, the unlock must not be
+// lost: the task blocked in lock() gets the mutex.
+static void timed_mutex_three()
+{
+    Shared s;
+    pika::timed_mutex m;
+    pmc_watch(&m, sizeof m, "timed_mutex");
+    int workers = 1 + pmc_choose(2, 0);
+    static int owner_has, b_waiting, c_waiting, c_got, b_result;
+    owner_has = b_waiting = c_waiting = c_got = 0;
+    b_result = -1;
+    pmc_on_stuck([] { pmc_fail("unlock-lost", "the owner unlocked, the timed waiter in front returned %d, but the task blocked in lock() never acquired the mutex", b_result); });
+    rt::config c;
+    c.workers = workers;
+    rt::start(c);
+    rt::spawn([&] {
+        rt::watch_self("owner");
+        m.lock();
+        owner_has = 1;
+        enter(s, m);
+        int guard = 0;
+        while (!(b_waiting && c_waiting) && ++guard < 300) pika::this_thread::yield();
+        for (int i = 0; i < 2; ++i) pika::this_thread::yield();    // both are (about to be) queued
+        leave(s);
+        m.unlock();
+        // keep this worker until the timed waiter's deadline has passed: an interposed sleep of 60 virtual ms
+        struct timespec ts = {0, 60000000};
+        nanosleep(&ts, nullptr);
+        ++s.finished;
+    });
+    rt::spawn([&] {
+        rt::watch_self("taskB");
+        int guard = 0;
+        while (!owner_has && ++guard < 300) pika::this_thread::yield();
+        b_waiting = 1;
+        pmc_deadline(pmc_now() + 50000000ull);
+        bool ok = m.try_lock_for(50ms);
+        b_result = ok;
+        if (ok) { enter(s, m); leave(s); m.unlock(); }
+        ++s.finished;
+    });
+    rt::spawn([&] {
+        rt::watch_self("taskC");
+        int guard = 0;
+        while (!b_waiting && ++guard < 300) pika::this_thread::yield();
+        c_waiting = 1;
+        m.lock();
+        c_got = 1;
+        enter(s, m);
+        leave(s);
+        m.unlock();
+        ++s.finished;
+    });
+    rt::stop();
+    PMC_ASSERT(s.finished == 3 && c_got, "unlock-lost", "%d of 3 tasks finished, the lock() waiter acquired: %d (timed waiter returned %d)", s.finished, c_got, b_result);
+    pmc_outcome("workers=%d b=%d", workers, b_result);
+}
+
 // recursive mutex: re-entrant depth 2
 template <typename RM, int T>
 static void recursive_tasks()
@@ -286,6 +346,7 @@ int main(int argc, char** argv)
         {"mutex_3x1", mutex_tasks<pika::mutex, 3, 1, 4>, 1, 2, 0.1, 0.3, 1, focus, nullptr, nullptr},
         {"mutex_2x2", mutex_tasks<pika::mutex, 2, 2, 3>, 1, 2, 0.1, 0.15, 1, focus, nullptr, nullptr},
         {"timed_mutex_relock", timed_mutex_pair<1>, 2, 3, 0.1, 0.1, 1, "F-addr: timed_mutex + both tasks' state words; fixed program: owner unlocks, re-locks and holds across the timed waiter's deadline", nullptr, nullptr},
+        {"timed_mutex_three", timed_mutex_three, 1, 2, 0.1, 0.1, 1, "F-addr: timed_mutex + task state words; owner, timed waiter in front, lock() waiter behind; the timed waiter resumes after its deadline", nullptr, nullptr},
         {"timed_mutex_pair", timed_mutex_pair<0>, 1, 2, 0.1, 0.1, 1, "F-addr: timed_mutex + both tasks' thread_data; early-timeout deviation = clock jump to B's deadline", nullptr, nullptr},
         {"recursive_mutex_2", recursive_tasks<pika::detail::recursive_mutex_impl<pika::mutex>, 2>, 1, 2, 0.1, 0.1, 1, "F-addr: recursive_mutex_impl<pika::mutex> + thread_data", nullptr, nullptr},
         {"recursive_spin_2", recursive_tasks<pika::detail::recursive_mutex_impl<>, 2>, 2, 3, 0.3, 0.1, 1, "F-addr: recursive_mutex (recursion_count, locking_context, inner mutex) + thread_data", nullptr, nullptr},
